@@ -9,6 +9,7 @@ from . import qgen
 BACKENDS = {
     "atlas": ("atlas", "atlas_xaod_tree", 'tree("atlas_xaod_tree")->Fill();', True),
     "cms_aod": ("cms_aod", "cms_aod_tree", "myTree->Fill();", False),
+    "cms_miniaod": ("cms_miniaod", "cms_miniaod_tree", "myTree->Fill();", False),
 }
 
 
